@@ -243,8 +243,11 @@ SlotStep(term) ==      \* body of encode_spo / encode_quad for one slot
   /\ pc = "slot"
   /\ LET i == Len(cur) + 1 IN
      /\ term \in Pool(i)
-     \* CheckFits: the precondition of C01 is exactly what the code enforces: the NON-elided terms of the row must fit
-     \* (e.rej = "" below; an elided term needs no lookup entry).  Fits() is the coarser, elision-blind version.
+     \* CheckFits = TRUE restricts the INPUTS to statements all of whose terms fit the tables (the precondition of C01 read
+     \* strictly: independent of what happens to be elided, so that the same statements can be replayed in another order).
+     \* The code itself is more generous: only the NON-elided terms of a row must fit (e.rej = "" below) -- that is what
+     \* CheckFits = FALSE explores (state-graph comparison, C18).
+     /\ (CheckFits => Fits(Append(cur, term)))
      /\ IF rep[i] = term
         THEN UNCHANGED <<tabs, rep, rows>>                     \* elided: nothing is touched
         ELSE LET e == EncTerm(tabs, term) IN
@@ -305,6 +308,7 @@ GraphBegin(g) ==       \* GraphStream.graph(): encode_graph + graph_start row, e
   /\ pc = "idle" /\ PType = PT_GRAPHS /\ ~gopen
   /\ (HistLen = 0 \/ Len(hist) < HistLen)
   /\ g \in PoolG
+  /\ (CheckFits => Fits(<<g>>))
   /\ LET e  == EncTerm([tabs EXCEPT !.C = NoClaims], g)                    \* start_row
          rw == e.rows \o <<[r |-> "gs", g |-> e.w]>>
          r2 == RdRun(rd, rw, 1)
